@@ -24,7 +24,7 @@ PLAN = {
     "thorough": {"shards": 16, "shard_timeout": 3600, "case_timeout": 60, "grammars": 7000, "max_case_timeouts": 80},
 }
 THRESHOLDS = {
-    "quick": {"step_cases_with_hand_written_programs": 10, "step_cases_whose_fitness_function_reuses_its_result_list": 5, "arguments_compared": 5000, "end_of_history_compared": 3000, "step_applications": 800, "tree_nodes_snapshotted": 20000, "kind:tree": 500, "kind:ge": 300, "kind:sge": 300, "kind:dsge": 300, "kind:stack": 100, "set:step_kinds": 8, "lazy_dsge_sessions": 50, "step_cases_with_nan_or_infinite_fitness": 15, "operator_arguments_never_mapped": 100},
+    "quick": {"step_cases_with_hand_written_programs": 5, "step_cases_whose_fitness_function_reuses_its_result_list": 5, "arguments_compared": 5000, "end_of_history_compared": 3000, "step_applications": 800, "tree_nodes_snapshotted": 20000, "kind:tree": 500, "kind:ge": 300, "kind:sge": 300, "kind:dsge": 300, "kind:stack": 100, "set:step_kinds": 8, "lazy_dsge_sessions": 50, "step_cases_with_nan_or_infinite_fitness": 15, "operator_arguments_never_mapped": 100},
     "thorough": {"arguments_compared": 100000, "end_of_history_compared": 60000, "step_applications": 15000},
 }
 
@@ -346,7 +346,7 @@ def run_steps(ctx, case, rec):
             rec.count("op_raised")
     if len(pop) < case["pop"]:
         return
-    if kind == "tree" and case["seed"] % 3 == 1:
+    if kind == "tree" and case["seed"] % 2 == 1:
         # programs WRITTEN BY HAND (the documented seeding route: InjectInitialPopulationWrapper, geml's initial_population):
         # built with the classes' own constructors, they carry none of the gengy_* attributes. Whatever a step needs to
         # know about them, it may not write onto them - node metadata "absent" is part of what must stay as it was.
